@@ -71,6 +71,15 @@ func c18Case(c *corrCtx, class, ld string, prefix []byte, needed int, tail int64
 			c.direct(fmt.Sprintf("C18/%s/%s/truncated", class, ld), "loading the file truncated after the last needed structure gives a different result",
 				map[string]interface{}{"loader": ld, "needed": needed, "full": meta, "truncated": cut, "prefix": hexs(trunc(prefix, 200))})
 		}
+		// ... also when the source hands over its last bytes together with io.EOF (whole, or in large pieces)
+		for _, sc := range [][]int{nil, {65536}, {4096}, {32768, 5000}} {
+			cutE := runLoadx(ld, prefix[:needed], sc, false, true).meta
+			if cutE != meta {
+				c.direct(fmt.Sprintf("C18/%s/%s/truncated-eof-with-data", class, ld), "loading the file truncated after the last needed structure gives a different result when the source returns its final bytes together with io.EOF",
+					map[string]interface{}{"loader": ld, "needed": needed, "full": meta, "truncated": cutE, "sched": schedStr(sc), "prefix": hexs(trunc(prefix, 200))})
+				break
+			}
+		}
 	}
 }
 
